@@ -20,6 +20,8 @@ RULE = ("Hypothesis programs of 1-3 linked files (+ included files) with labels 
         "listing. Non-trivial: >= 2 files or >= 1 symbol that is negative / > 16 bit / tied in value; distinct = distinct (tree, argv).")
 ASSUMPTIONS = ["'named after it with a .lst suffix' accepts both X.ext -> X.lst and X.ext -> X.ext.lst",
                "with -o and make_* together the listing may stand beside either output (the statement does not order them)",
+               "'named after it': both <output>.lst and <output minus extension>.lst are accepted, but the choice may depend on the first "
+               "output file only (checked by dropping the later directives)",
                "block order in the listing is not specified"]
 
 VALUES = [0, 1, -1, -5, 0o177777, 0o200000, 0o77777, 0o100000, 0o777777, 0o1000000, 0o1234567, -0o200000, 1 << 32, (1 << 32) + 5, 0o200001, 2, 0o1000]
@@ -199,6 +201,17 @@ def judge(c):
             ok_names.add(os.path.splitext(a)[0] + ".lst")
         if os.path.normpath(lst) not in ok_names:
             return [("listing-location", f"argv {argv}: listing written to {lst}, expected one of {sorted(ok_names)} (outputs {outputs})\n{progcheck.brief_texts(texts)}")], info
+        if len(c["directives"]) >= 2 and not c["o"] and not c.get("_single"):
+            # "beside the first output file and named after it": the name depends on the first output file only, so the same
+            # program with just that one directive must put its listing in the same place
+            first = first_directive(c)
+            c1 = dict(c, directives=[first], _single=True)
+            prog1 = build(c1)
+            with driver.Scratch(dict({d: None for d in tree if d.endswith("/")}, **progcheck.texts_of(prog1))) as sc1:
+                res1 = driver.run_cli(sc1, argv)
+                lst1 = sorted(k for k in res1.after if k not in res1.before and k.lower().endswith(".lst"))
+            if res1.status == 0 and lst1 != [lst]:
+                return [("listing-name-depends-on-later-output", f"argv {argv}: listing {lst} with directives {[d[:2] for d in c['directives']]}, but {lst1} with only the first one {first[:2]}\n{progcheck.brief_texts(texts)}")], info
         text = sc.read(lst).decode("utf-8", "replace")
         try:
             blocks = parse_listing(text)
@@ -255,7 +268,7 @@ def first_directive(c):
 
 def shards(tier):
     k = 16
-    per = (1000 if tier == "quick" else 20000) // k
+    per = (4000 if tier == "quick" else 40000) // k
     return [{"part": "random", "i": i, "examples": per} for i in range(k)]
 
 
